@@ -135,6 +135,14 @@ Qed.
 Print Assumptions C12_unsigned_accept_requires_trailer_partial.
 Print Assumptions C12_unsigned_any_buffers.
 
+(* non-vacuity of C12_signed_data_chunk_declares_signature: a first header "5;chunk-signature=ab" is accepted as a data chunk of
+   five bytes carrying the signature "ab"; the same header with nothing behind the "=" is refused *)
+Example C12_signed_data_chunk_example :
+  let bs := bytes_of_string in let crlf := [13; 10]%N in
+  (exists s2 off, parse_header None (init (bs "seed"%string)) (bs "5;chunk-signature=ab"%string ++ crlf ++ bs "hello"%string)%list = PH_ok s2 5 (bs "ab"%string) off) /\
+  parse_header None (init (bs "seed"%string)) (bs "5;chunk-signature="%string ++ crlf ++ bs "hello"%string)%list = PH_err E_SigMismatch.
+Proof. vm_compute. split; [eexists; eexists; reflexivity|reflexivity]. Qed.
+
 (* non-vacuity: a concrete valid unsigned stream of two chunks read through 2-byte buffers decodes to its payload *)
 Example C12_unsigned_example :
   urun TCrc32 100 (uinit [51;13;10;97;98;99;13;10;50;13;10;100;101;13;10;48;13;10;120;45;97;109;122;45;99;104;101;99;107;115;117;109;45;99;114;99;51;50;58;104;89;102;89;90;81;61;61;13;10;13;10]%N) [] 2 [] = (bytes_of_string "abcde", U_EOF).
